@@ -67,23 +67,15 @@ Proof.
   nia.
 Qed.
 
-Lemma asc_typed_positions k n ps : 0 <= n -> asc_dom k = true ->
-  positions k n = Some ps ->
-  positions (asc_typed k n) n = Some (if step_negative k then rev ps else ps).
+(* the original body: correct for a negative step and start/stop that are positions or None *)
+Lemma asc_tail_positions oa ob st n : 0 <= n -> st < 0 -> nonneg_opt oa -> nonneg_opt ob ->
+  positions (asc_tail (mk_slice oa ob (Some st)) st n) n =
+  Some (rev (range_list (adj_bound oa n st true) st
+              (Z.to_nat (range_len (adj_bound oa n st true) (adj_bound ob n st false) st)))).
 Proof.
-  intros Hn Hdom. unfold positions, slice_indices, asc_typed, step_negative.
-  destruct k as [oa ob [st|]]; cbn [s_step s_start s_stop] in *; [|intros ->; reflexivity].
-  destruct (st =? 0) eqn:Hz; [discriminate|]. apply Z.eqb_neq in Hz.
-  destruct (st >? 0) eqn:Hpos.
-  { cbn [s_step]. replace (st =? 0) with false by lia. replace (st <? 0) with false by lia.
-    intros E; exact E. }
-  replace (st <? 0) with true by lia.
-  intros E. injection E as <-.
+  intros Hn Hneg Hoa Hob.
+  unfold positions, slice_indices, asc_tail. cbn [s_step s_start s_stop].
   rewrite rev_range_list.
-  unfold asc_dom in Hdom. cbn [s_start s_stop] in Hdom. apply andb_true_iff in Hdom as [Ha Hb].
-  assert (Hoa : nonneg_opt oa) by (destruct oa; cbn; lia).
-  assert (Hob : nonneg_opt ob) by (destruct ob; cbn; lia).
-  assert (Hneg : st < 0) by lia.
   rewrite (adj_start_neg oa n st Hneg Hn Hoa), (adj_stop_neg ob n st Hneg Hn Hob).
   destruct (st =? -1) eqn:Hm1.
   - (* step -1: slice(stop+1, start+1, 1) *)
@@ -106,7 +98,6 @@ Proof.
     assert (Hb_rng : -1 <= b) by (subst b; destruct ob; cbn in Hob; lia).
     cbn [s_step s_start s_stop].
     replace (s =? 0) with false by lia.
-    (* the unclipped stop used by the code gives the same quotient whenever the slice is non-empty *)
     set (q := match ob with Some b0 => (a - b0 - 1) / s | None => a / s end).
     assert (Hq_eq : b < a -> q = (a - b - 1) / s).
     { subst q b. destruct ob as [y|]; cbn in Hob; intros H; f_equal; lia. }
@@ -138,26 +129,72 @@ Proof.
       destruct (_ <? a + 1) eqn:Hlt; [lia|]. reflexivity.
 Qed.
 
+(* slice.indices() bounds are positions (or -1, meaning "before position 0") for a negative step *)
+Lemma adj_bound_neg_range o n st is_start : 0 <= n -> st < 0 -> -1 <= adj_bound o n st is_start <= n - 1.
+Proof.
+  intros Hn Hst. unfold adj_bound. destruct o as [v|], is_start;
+    repeat match goal with |- context [if ?c then _ else _] => destruct c eqn:? end; lia.
+Qed.
+
+Lemma asc_typed_positions k n ps : 0 <= n ->
+  positions k n = Some ps ->
+  positions (asc_typed k n) n = Some (if step_negative k then rev ps else ps).
+Proof.
+  intros Hn. unfold positions at 1, slice_indices, asc_typed, step_negative.
+  destruct k as [oa ob [st|]]; cbn [s_step s_start s_stop] in *; [|intros E; rewrite <- E; reflexivity].
+  destruct (st =? 0) eqn:Hz; [discriminate|]. apply Z.eqb_neq in Hz.
+  destruct (st >? 0) eqn:Hpos.
+  { unfold positions, slice_indices. cbn [s_step s_start s_stop].
+    replace (st =? 0) with false by lia. replace (st <? 0) with false by lia.
+    intros E; exact E. }
+  replace (st <? 0) with true by lia.
+  assert (Hneg : st < 0) by lia.
+  intros E. injection E as <-.
+  destruct (neg_bound (mk_slice oa ob (Some st))) eqn:Hnb.
+  - (* negative start/stop: normalised through slice.indices first *)
+    pose proof (adj_bound_neg_range oa n st true Hn Hneg) as Ha.
+    pose proof (adj_bound_neg_range ob n st false Hn Hneg) as Hb.
+    set (a := adj_bound oa n st true) in *. set (b := adj_bound ob n st false) in *.
+    destruct (a <? 0) eqn:Ha0.
+    + assert (a = -1) by lia.
+      assert (Hrl : range_len a b st = 0).
+      { unfold range_len. replace (st <? 0) with true by lia. replace (b <? a) with false by lia. reflexivity. }
+      rewrite Hrl. unfold positions, slice_indices, range_len, adj_bound.
+      cbn [s_step s_start s_stop Z.eqb Z.ltb Z.compare].
+      destruct (0 >=? n) eqn:?; rewrite Z.ltb_irrefl; reflexivity.
+    + rewrite asc_tail_positions; [|assumption|assumption|cbn; lia|destruct (b <? 0) eqn:?; cbn; [trivial|lia]].
+      assert (Ea : adj_bound (Some a) n st true = a).
+      { rewrite adj_start_neg; [|assumption|assumption|cbn; lia]. lia. }
+      assert (Eb : adj_bound (if b <? 0 then None else Some b) n st false = b).
+      { destruct (b <? 0) eqn:Hb0.
+        - unfold adj_bound. replace (st <? 0) with true by lia. lia.
+        - rewrite adj_stop_neg; [|assumption|assumption|cbn; lia]. lia. }
+      rewrite Ea, Eb. reflexivity.
+  - unfold neg_bound in Hnb. cbn [s_start s_stop] in Hnb. apply orb_false_iff in Hnb as [Hx Hy].
+    rewrite asc_tail_positions; [reflexivity|assumption|assumption|destruct oa; cbn; lia|destruct ob; cbn; lia].
+Qed.
+
 Lemma asc_typed_step_pos k n : s_step k <> Some 0 ->
   match s_step (asc_typed k n) with Some st => 0 < st | None => True end.
 Proof.
   destruct k as [oa ob [st|]]; unfold asc_typed; cbn [s_step]; [|trivial].
   intros Hst. assert (st <> 0) by congruence.
-  destruct (st >? 0) eqn:?; [cbn; lia|]. destruct (st =? -1); cbn; lia.
+  destruct (st >? 0) eqn:?; [cbn; lia|].
+  unfold asc_tail. destruct (neg_bound _); [destruct (_ <? 0); [cbn; trivial|]|]; destruct (st =? -1); cbn; lia.
 Qed.
 
 (* Main theorem about the REGENERATED kernel. *)
-Theorem asc_slice_correct k n ps : 0 <= n -> asc_dom k = true ->
+Theorem asc_slice_correct k n ps : 0 <= n ->
   positions k n = Some ps ->
   exists k', slice_to_ascending_slice (of_slice k) (PInt n) = of_slice k' /\
              positions k' n = Some (if step_negative k then rev ps else ps) /\
              increasing (if step_negative k then rev ps else ps).
 Proof.
-  intros Hn Hdom Hps.
+  intros Hn Hps.
   assert (Hst : s_step k <> Some 0).
   { intros E. unfold positions, slice_indices in Hps. rewrite E in Hps. discriminate. }
   exists (asc_typed k n). split; [apply asc_typed_refines; assumption|].
-  pose proof (asc_typed_positions k n ps Hn Hdom Hps) as Hp. split; [assumption|].
+  pose proof (asc_typed_positions k n ps Hn Hps) as Hp. split; [assumption|].
   pose proof (asc_typed_step_pos k n Hst) as Hpos.
   revert Hp. unfold positions, slice_indices.
   destruct (s_step (asc_typed k n)) as [st|].
